@@ -10,6 +10,8 @@ Static clauses (necessary conditions for confluence; the behavioural statement i
   S-STAGES   in the resolver's pass function the compiler's built-ins are applied (Node::apply with the compiler as visitor) in
              every round, after apply_fees and before compile - not hoisted in front of the loop
   S-PURE     stages keep no state: no mutable statics / interior mutability in tx3-tir's reduce closure
+  S-ALLCONST no `Apply::is_constant` impl combines its children's is_constant() with `any` (a node is constant only when all
+             of its children are)
 """
 from .. import mir, e3_trav as e3
 from ..common import with_closures, call_matches, is_trait_call, CallGraph, is_derive
@@ -301,9 +303,51 @@ def s_stages(F, res):
         res.add([finding("S-STAGES", key, w, "in the pass function the compiler's built-ins are not applied between apply_fees and compile on every path")])
 
 
+def s_allconst(F, res):
+    """S-ALLCONST: "fold only when *all* components are constant" - an `Apply::is_constant` impl that combines its children with
+    `Iterator::any` (not negated) calls a node constant as soon as one child is: the node is folded while another operand is
+    still pending, in one schedule and not in another."""
+    n = 0
+    for f in sorted(F.fns.values(), key=lambda g: g["path"]):
+        if f.get("impl_trait") != APPLY or f.get("name") != "is_constant" or f["crate"] != "tx3_tir":
+            continue
+        n += 1
+        bad = None
+        for g in with_closures(F, f):
+            du = mir.DefUse(g)
+            for bi, t in mir.calls(g):
+                if (t.get("callee") or "") != "std::iter::Iterator::any":
+                    continue
+                # the predicate hands on a child's is_constant() as it is
+                pred_is_const = False
+                for fr in t.get("fnrefs") or ():
+                    h = F.fns.get(fr)
+                    if h is None:
+                        continue
+                    dh = mir.DefUse(h)
+                    o = mir.provenance(h, dh, {"l": 0, "p": []})
+                    if any(x.kind == "call" and (x.callee.endswith("::is_constant") or (x.term.get("method") == "is_constant")) for x in o):
+                        pred_is_const = True
+                dl = t["dest"]["l"]
+                negated = any(st["rv"]["k"] == "unop" and st["rv"]["op"] == "Not" and (mir.op_place(st["rv"]["a"]) or {}).get("l") == dl
+                              for _b, _i, st in mir.stmts(g))
+                if pred_is_const and not negated:
+                    bad = (g, t)
+        key = "%s|children combined by conjunction" % f["path"]
+        if bad:
+            res.add([finding("S-ALLCONST", key, where(bad[0], bad[1]["line"]),
+                             "is_constant is `any` over the children's is_constant(): a node with one constant and one pending child is reduced before its other operand arrives")])
+        else:
+            res.add([ok("S-ALLCONST", key, where(f), "no `any` over the children's is_constant()")])
+    res.count("is_constant impls", n)
+    res.floor("is_constant impls", n, 3)
+
+
 def run(ctx):
     F = ctx.F
     res = Result("C07")
+    res.rule("S-ALLCONST", "no is_constant impl is a disjunction (`any`) over its children's is_constant()")
+    s_allconst(F, res)
     res.rule("S-REDUCE", "reduce_self only under is_constant(); compiler ops and unset params are never constant")
     res.rule("S-UNWRAP", "Expression::reduce unwraps the NoOp/Set wrappers that reduction produces")
     res.rule("S-KIND", "Param::apply_X builds Param::Set only under the arm of the kind it substitutes")
